@@ -412,13 +412,15 @@ theorem admits_allOf_example :
         .enumLit [.int 2, .int 4, .str "q"]]), ("b", .boolean)]) (.inst "K" [("x", .int 4)]) = true
     ∧ inSchemaFragment (flat "K" ["x"] [("x", .allOf [.integer {}, .float {}]), ("b", .boolean)]) = false := by decide
 
-/-- finding `ill-formed:default:not-json`: a default that is a list of enum members (or a set, a
-    tuple) is written into the schema verbatim -/
-theorem counterexample_default_not_json :
-    raises (flat "K" ["a"] [("a", .integer {}), ("l", .seqOf .list (.enumCls "Color" ["RED", "GREEN"]) {})]
-      [("l", .list [.enumv "Color" "RED"])]) = false
-    ∧ wfOf (flat "K" ["a"] [("a", .integer {}), ("l", .seqOf .list (.enumCls "Color" ["RED", "GREEN"]) {})]
-      [("l", .list [.enumv "Color" "RED"])]) = false := by decide
+/-- fixed (was finding `ill-formed:default:not-json`): a default is written in its JSON form (a list of
+    enum members as the list of their names, a set / tuple as an array); inside `schema_wellformed_partial` -/
+theorem fixed_default_json :
+    inWfFragment (flat "K" ["a"] [("a", .integer {}), ("l", .seqOf .list (.enumCls "Color" ["RED", "GREEN"]) {}),
+        ("s", .setOf false (.integer {}) {})]
+      [("l", .list [.enumv "Color" "RED"]), ("s", .set false [.int 1, .int 2])]) = true
+    ∧ wfOf (flat "K" ["a"] [("a", .integer {}), ("l", .seqOf .list (.enumCls "Color" ["RED", "GREEN"]) {}),
+        ("s", .setOf false (.integer {}) {})]
+      [("l", .list [.enumv "Color" "RED"]), ("s", .set false [.int 1, .int 2])]) = true := by decide
 
 def exSetCls : FieldDecl :=
   flat "K" ["s"] [("s", .setOf false (.string none none none) { max := some 3 }),
@@ -461,18 +463,17 @@ theorem admits_renamed_example :
 def chainCls : FieldDecl := flat "K" ["a"] [("a", .integer {}), ("b", .integer {})]
 def chainKm : KeyMap := [("a", "b"), ("b", "c")]
 
-/-- finding `admits:mapper-required-renamed-in-place`: `_serialization_mapper = {"a": "b", "b": "c"}` with
-    only `a` required: the code renames `required` in place while it walks the fields, so `a`'s entry,
-    already renamed to `b`, is renamed again to `c` when field `b` comes: the schema requires `c` (the key
-    of the optional field) and not `b`; `K(a=1)` serializes to `{"b": 1}`, which the schema rejects -/
-theorem counterexample_mapper_required_in_place :
+/-- fixed (was finding `admits:mapper-required-renamed-in-place`): `_serialization_mapper = {"a": "b", "b": "c"}`
+    with only `a` required now exports `required: ["b"]`; `K(a=1)` serializes to `{"b": 1}`, which validates -/
+theorem fixed_mapper_required :
     inSchemaFragment chainCls = true
     ∧ inAdmitRegion anyO chainCls (.inst "K" [("a", .int 1)]) = true
-    ∧ requiredFaithful chainKm { name := "K", required := ["a"], accepts := ["K"] } [] ["a", "b"] = false
+    ∧ requiredFaithful chainKm { name := "K", required := ["a"], accepts := ["K"] } [] ["a", "b"] = true
     ∧ (match serialize anyO chainCls (.inst "K" [("a", .int 1)]) with
-       | .ok j => jsValidFuel 0 (fixedPtrDefs chainCls) anyS (dialectFix (classSchemaM false chainKm chainCls))
+       | .ok j => renameSafe chainKm chainCls j
+                  && jsValidFuel 0 (fixedPtrDefs chainCls) anyS (dialectFix (classSchemaM false chainKm chainCls))
                     (renameDoc chainKm j)
-       | .error _ => true) = false := by decide
+       | .error _ => false) = true := by decide
 
 /-- finding `exact:positional-shorter`: positional `Tuple` / `Array` items carry no `minItems`, so
     a shorter array is admitted by the schema and rejected by the Deserializer -/
@@ -480,10 +481,16 @@ theorem counterexample_exact_positional_shorter :
     admittedButRejected (flat "K" ["t"] [("t", .tuplePos [.integer {}, .boolean] false), ("b", .boolean)])
       (.dict [(.str "t", .list [.int 1])]) = true := by decide
 
-/-- finding `exact:map-size`: `Map(minItems/maxItems)` is emitted as `minItems` / `maxItems`, which
-    do not apply to objects -/
-theorem counterexample_exact_map_size :
+/-- fixed (was finding `exact:map-size`): `Map(minItems/maxItems)` is exported as `minProperties` /
+    `maxProperties`: an over-long object is no longer admitted; a map inside the bound still is -/
+theorem fixed_map_size :
     admittedButRejected (flat "K" ["m"] [("m", .mapAny { max := some 1 }), ("b", .boolean)])
-      (.dict [(.str "m", .dict [(.str "p", .int 1), (.str "q", .int 2)])]) = true := by decide
+      (.dict [(.str "m", .dict [(.str "p", .int 1), (.str "q", .int 2)])]) = false
+    ∧ schemaAccepts anyS (flat "K" ["m"] [("m", .mapAny { max := some 1 }), ("b", .boolean)]) 0
+      (.dict [(.str "m", .dict [(.str "p", .int 1), (.str "q", .int 2)])]) = false
+    ∧ inAdmitRegion anyO (flat "K" ["m"] [("m", .mapAny { max := some 1 }), ("b", .boolean)])
+      (.inst "K" [("m", .dict [(.str "p", .int 1)])]) = true
+    ∧ verdict (flat "K" ["m"] [("m", .mapAny { max := some 1 }), ("b", .boolean)])
+      (.inst "K" [("m", .dict [(.str "p", .int 1)])]) = true := by decide
 
 end Typedpy.C08
